@@ -27,3 +27,8 @@ func VerifBCP47ToOtf(tag language.Tag) (string, string, error) {
 	s, l, err := bcp47ToOtf(tag)
 	return string(s), string(l), err
 }
+
+// VerifSubtableSizes returns the declared and the emitted size of a subtable.
+func VerifSubtableSizes(st Subtable) (declared, emitted int) {
+	return st.encodeLen(), len(st.encode())
+}
